@@ -199,8 +199,24 @@ func paramOfCtorValue(ctor *ssa.Function, v ssa.Value, d int) int {
 // VariadicElems returns the elements of the variadic argument of a call built in place
 // (`f(a, b, c)` => new [3]T + stores + slice). ok=false when the slice comes from elsewhere.
 func VariadicElems(arg ssa.Value) ([]ssa.Value, bool) {
+	return variadicElems(arg, 0)
+}
+
+// variadicElems also accepts a local slice built from a literal and extended by append calls
+// (`opts := []T{a, b}; opts = append(opts, c)`; straight-line only: a conditional append is a phi and fails).
+func variadicElems(arg ssa.Value, d int) ([]ssa.Value, bool) {
 	if c, ok := arg.(*ssa.Const); ok && c.Value == nil {
 		return nil, true // no variadic arguments
+	}
+	if c, ok := arg.(*ssa.Call); ok && d < 12 {
+		if bi, isB := c.Call.Value.(*ssa.Builtin); isB && bi.Name() == "append" && len(c.Call.Args) == 2 {
+			a, okA := variadicElems(c.Call.Args[0], d+1)
+			b, okB := variadicElems(c.Call.Args[1], d+1)
+			if okA && okB {
+				return append(append([]ssa.Value{}, a...), b...), true
+			}
+		}
+		return nil, false
 	}
 	sl, ok := arg.(*ssa.Slice)
 	if !ok {
